@@ -14,6 +14,12 @@ Notation sample := (Z * Z)%type (only parsing).          (* (t, v) *)
 (* raw samples: None = NaN (ordinary or stale marker) *)
 Notation rsample := (Z * option Z)%type (only parsing).
 
+(* monomorphic constructors for the generated cases.v files (elaborating `(t, Some v)` in long
+   list literals is several times slower than these) *)
+Definition sp (t v : Z) : Z * Z := (t, v).
+Definition rs (t v : Z) : Z * option Z := (t, Some v).
+Definition rn (t : Z) : Z * option Z := (t, None).
+
 Definition max_int64 : Z := 9223372036854775807.
 Definition min_int64 : Z := -9223372036854775808.
 
